@@ -140,6 +140,39 @@ func runC19(c *mon.Case) {
 			reRoundTrip(c, ser)
 			n++
 		}
+		// (O) one packet object used again and again: serialised, its fields
+		// changed, serialised again (a packet that goes through the send
+		// queue a second time, a received packet that is altered and
+		// forwarded) - and a packet obtained from Deserialize, then changed.
+		// Every serialisation must describe the fields as they are now.
+		obj := &gbn.PacketData{}
+		for i, p := range payloads {
+			for _, flags := range [][2]bool{{false, false}, {true, false}, {false, true}, {true, true}} {
+				obj.Seq, obj.FinalChunk, obj.IsPing, obj.Payload = v+uint8(i), flags[0], flags[1], p
+				fresh := &gbn.PacketData{Seq: obj.Seq, FinalChunk: obj.FinalChunk, IsPing: obj.IsPing, Payload: p}
+				a, errA := obj.Serialize()
+				b, errB := fresh.Serialize()
+				n++
+				if errA != nil || errB != nil || !bytes.Equal(a, b) {
+					c.Shard.Violate("gbn-roundtrip|reused-object", fmt.Sprintf("a PacketData object that was serialised before and then changed to seq=%d final=%v ping=%v payload %d bytes serialises to %x.., a fresh packet with the same fields to %x..", obj.Seq, obj.FinalChunk, obj.IsPing, len(p), trunc(a), trunc(b)), nil)
+				}
+				if len(b) > 0 && len(b) < 4096 {
+					if dm, err := gbn.Deserialize(b); err == nil {
+						if d, ok := dm.(*gbn.PacketData); ok {
+							d.Seq++
+							d.FinalChunk = !d.FinalChunk
+							want := &gbn.PacketData{Seq: d.Seq, FinalChunk: d.FinalChunk, IsPing: d.IsPing, Payload: d.Payload}
+							x, _ := d.Serialize()
+							y, _ := want.Serialize()
+							n++
+							if !bytes.Equal(x, y) {
+								c.Shard.Violate("gbn-roundtrip|changed-after-decode", fmt.Sprintf("a decoded PacketData whose seq and final flag were changed serialises to %x.., a fresh packet with those fields to %x..", trunc(x), trunc(y)), nil)
+							}
+						}
+					}
+				}
+			}
+		}
 		// MsgData, version byte v
 		reused := mailbox.NewMsgData(0, nil)
 		for _, p := range payloads {
